@@ -265,6 +265,11 @@ def run(ctx):
     recs += probe_jobs(n + len(rt))
     verdict = cv.validate(ctx, recs)
     judge(ctx, "C17", recs, verdict)
+    # whole sessions against System.tla: this check judges the rejections at the ssc_to_sm event
+    from . import system_common as sysc
+    sessions, sverdict = sysc.run_sessions(ctx, 300 if ctx.quick else 5000, ctx.seed + 17, tosm_bias=True)
+    sysc.judge(ctx, "C17", sessions, sverdict, sysc.TOSM_OPS, "conversion to SM inside a session")
+    ctx.notes["sessions_with_a_tosm_event"] = sum(1 for s_ in sessions if any(e["op"] == "tosm" for e in s_["events"]))
     ctx.notes["c2s_calls"] = len(recs)
     ctx.sample({"c2s": {"source": cv.show(recs[1]["src"]), "behaviours": recs[1]["beh"], "outcome": recs[1]["st"], "named": recs[1]["key"]}})
     ctx.exhaustive = True
